@@ -666,7 +666,8 @@ def judge_creator_path(ctx, R, S, f, p, key):
             "creator writes arrays %s; expected exactly one write to each of %s" % (arrays, want_arrays), where_of(f), fn=f.key)
     for e, arr in zip(writes, arrays):
         idx = N(e[3][1])
-        R.check(idx == old_len, "C02-R1", key + "|write-index(%s)" % arr, "index = len before increment",
+        # (usize::from(TrimmedIndex::new_usize(len).unwrap*()) is len)
+        R.check(idx == old_len or strip_epochs(untrim(idx)) == strip_epochs(old_len), "C02-R1", key + "|write-index(%s)" % arr, "index = len before increment",
                 "cell of %s is written at index %s; expected the pre-increment self.len (all columns at one index)" % (arr, show(idx)), where_of(f, e[5]), fn=f.key)
     # len store
     lstores = [e for e in p.effects if e[0] == "store" and NL(e[1]) == floc("len")]
